@@ -92,6 +92,29 @@ CLAIMED = {
              note="Trusted: as C09. 'A signature written from a packet matches it exactly' is checked on the implementation (and its ingredients are the C01/C03 "
                   "theorems) but not proved as one composed theorem. No axioms.",
              tech="Coq proof (printer/parser round trips) + differential correspondence, quirk sweep (thorough: all 2^17)", ref="DESIGN.md section 4 C18"),
+ "C11": dict(text="Coq theorems: the line-by-line load (local database, commit after the last line) refines the atomic specification "
+                  "load_spec; at EVERY line-read point the visible version is the one installed before the load, only the observation after the last line "
+                  "shows the new one; failed load preserves, no accumulation, idempotence, never-loaded = no section. " + TIE + " A wrapped file iterator "
+                  "snapshots the whole shared database at every line read of every load in histories of good/bad/unreadable files (fault at every line).",
+             note="Trusted: as C09; observation granularity = line-read point (as the property states); unreadable paths are checked on the "
+                  "implementation only. No axioms.",
+             tech="Coq proof (small-step loader refines atomic spec) + runtime observer at every line-read point compared with the model trace", ref="DESIGN.md section 4 C11"),
+ "C12": dict(text="PARTIAL. Coq: frame theorem over a heap model of which objects each public call allocates, reads and writes (copies for fingerprinting, "
+                  "copy_buffer before extract_lines, new layers for impersonate_tcp, impersonate_mtu writes its argument only), and no non-load call changes "
+                  "the database. The model is thin: that bytes(packet), Scapy's '/', FlagValue operators and h11 buffers do not touch their operands is "
+                  "runtime behaviour no Gallina model can exhibit. Decisive half: before/after snapshots (bytes, command(), explicit-field maps per layer, "
+                  "buffer bytes/length/cursors, deep database dump) around every call of random call sequences on sniffed and constructed packets and all "
+                  "three buffer types.",
+             note="Trusted: Coq kernel for the frame lemma; the runtime monitor (harness/props/c12.py), CPython/Scapy/h11 object semantics. No axioms.",
+             tech="Coq frame lemma over a heap model (partial) + runtime before/after object monitor", ref="DESIGN.md section 4 C12, section 7"),
+ "C16": dict(text="Coq theorems over the API state machine (state = loaded database): the output of a call after ANY history equals its history-free value "
+                  "on the database of the last successful load; histories with the same last load agree; non-load calls preserve the database; repeating a "
+                  "call repeats its result. " + TIE + " Histories of 30 interleaved calls (reloads, raw / freshly parsed / REUSED parsed packets with "
+                  "varying syn_mss and max_dist, three buffer types, impersonation by label with extra_hops, sibling packets, probe records that force lazy "
+                  "state) run in one process and every result is compared with the model's pure value.",
+             note="Trusted: as C01/C03/C09 (the machine composes those models); module-level state of the Python runtime is only observable through the "
+                  "tie; uptime excluded as the property allows. No axioms.",
+             tech="Coq proof (history independence of the API machine) + extracted-machine differential correspondence on call histories", ref="DESIGN.md section 4 C16"),
 }
 def main():
     checks = []
